@@ -19,6 +19,16 @@ func init() {
 		Assumptions: []string{"Insert(key, nil) is outside the contract (nil encodes absence)", "an injected storage error inside a mutating operation is outside the property's quantifier (not generated here)"},
 	})
 	reg(&core.Property{
+		ID: "C06", Level: "exploration",
+		Batches: []core.Batch{
+			{Name: "histories", Engine: store.NodeDBEngine{Prop: "C06"}, Quick: 6000, Thorough: 150000,
+				Rule: "a run is non-trivial when the history has at least four operations including a commit and a finalize"},
+		},
+		Real:        []string{"storage/mkvs/db/badger and pathbadger on tmpfs directories (Commit/Finalize/Prune/reopen), mkvs trees, proofs"},
+		Stub:        []string{"concurrent readers are state machines advanced inside the writer at verifhook points (inline preemption), not OS threads"},
+		Assumptions: []string{"every version has a state-root candidate derived from the previous finalized state root (as the consensus layer produces them)", "badger background goroutines (flush, compaction, GC) are real and unscheduled"},
+	})
+	reg(&core.Property{
 		ID: "C04", Level: "exploration",
 		Batches: []core.Batch{
 			{Name: "byzantine", Engine: store.ProofEngine{}, Quick: 60000, Thorough: 2000000,
